@@ -57,9 +57,11 @@ ExtraSet == {ExtraChars[i].c : i \in 1..Len(ExtraChars)}
 ExtraCodes == {ExtraChars[i].n : i \in 1..Len(ExtraChars)}
 KnownChars == AlphaSet \cup ExtraSet
 
-CodeOf(c) == IF c \in AlphaSet THEN Code[c] + 31
-             ELSE IF c \in ExtraSet THEN ExtraChars[CHOOSE i \in 1..Len(ExtraChars) : ExtraChars[i].c = c].n
-             ELSE 0
+CodeTable == LET f == [c \in KnownChars |->
+                           IF c \in AlphaSet THEN (CHOOSE i \in 1..Len(Alphabet) : Ch(Alphabet, i) = c) + 31
+                           ELSE ExtraChars[CHOOSE i \in 1..Len(ExtraChars) : ExtraChars[i].c = c].n]
+             IN f @@ f          \* (f @@ f: an explicit table instead of a lazily evaluated function)
+CodeOf(c) == IF c \in KnownChars THEN CodeTable[c] ELSE 0
 HasChar(n) == (n >= 32 /\ n <= 126) \/ n \in ExtraCodes
 CharOf(n) == IF n >= 32 /\ n <= 126 THEN Ch(Alphabet, n - 31)
              ELSE ExtraChars[CHOOSE i \in 1..Len(ExtraChars) : ExtraChars[i].n = n].c
@@ -67,13 +69,23 @@ CharOf(n) == IF n >= 32 /\ n <= 126 THEN Ch(Alphabet, n - 31)
 RECURSIVE AllKnown(_, _)
 AllKnown(s, i) == i > Len(s) \/ (Ch(s, i) \in KnownChars /\ AllKnown(s, i + 1))
 
+\* (membership and value tables are constant sets/functions: TLC evaluates
+\* them once; scanning a string costs a recursion step per character)
 Digits == "0123456789"
 HexUpper == "0123456789ABCDEF"
 HexLower == "0123456789abcdef"
-IsDigit(c) == HasSub(Digits, c) /\ Len(c) = 1
-DigitVal(c) == FindFrom(Digits, c, 1) - 1
-IsHex(c) == Len(c) = 1 /\ (HasSub(HexUpper, c) \/ HasSub(HexLower, c))
-HexVal(c) == IF HasSub(HexUpper, c) THEN FindFrom(HexUpper, c, 1) - 1 ELSE FindFrom(HexLower, c, 1) - 1
+CharsOf(str) == {Ch(str, i) : i \in 1..Len(str)}
+DigitSet == CharsOf(Digits)
+HexSet == CharsOf(HexUpper) \cup CharsOf(HexLower)
+\* (f @@ f turns the lazily evaluated [x \in S |-> e] into an explicit table)
+HexTable == LET f == [c \in HexSet |-> IF c \in CharsOf(HexUpper)
+                                          THEN (CHOOSE i \in 1..16 : Ch(HexUpper, i) = c) - 1
+                                          ELSE (CHOOSE i \in 1..16 : Ch(HexLower, i) = c) - 1]
+            IN f @@ f
+IsDigit(c) == c \in DigitSet
+DigitVal(c) == HexTable[c]
+IsHex(c) == c \in HexSet
+HexVal(c) == HexTable[c]
 Hex2(n) == Ch(HexUpper, (n \div 16) + 1) \o Ch(HexUpper, (n % 16) + 1)
 Hex2l(n) == Ch(HexLower, (n \div 16) + 1) \o Ch(HexLower, (n % 16) + 1)
 
@@ -89,7 +101,9 @@ NumVal(s, base, i, acc) ==
 
 UpperAZ == "ABCDEFGHIJKLMNOPQRSTUVWXYZ"
 LowerAZ == "abcdefghijklmnopqrstuvwxyz"
-LowerCh(c) == LET j == FindFrom(UpperAZ, c, 1) IN IF Len(c) = 1 /\ j # 0 THEN Ch(LowerAZ, j) ELSE c
+LowerTable == LET f == [c \in CharsOf(UpperAZ) |-> Ch(LowerAZ, CHOOSE i \in 1..26 : Ch(UpperAZ, i) = c)]
+              IN f @@ f
+LowerCh(c) == IF c \in DOMAIN LowerTable THEN LowerTable[c] ELSE c
 Lower(s) == MapCat(LowerCh, s, 1)
 
 \* UTF-8 bytes of a code point of the Basic Multilingual Plane
@@ -176,7 +190,7 @@ HtmlTokens(t) == HtmlTokensFrom(t, 1)
 RECURSIVE CatTokChars(_, _)
 CatTokChars(q, i) == IF i > Len(q) THEN "" ELSE q[i].c \o CatTokChars(q, i + 1)
 
-HtmlKnown(t)    == \A i \in DOMAIN HtmlTokens(t) : HtmlTokens(t)[i].k # "unk"
+HtmlKnown(t)    == LET q == HtmlTokens(t) IN \A i \in DOMAIN q : q[i].k # "unk"
 UnescapeHtml(t) == CatTokChars(HtmlTokens(t), 1)
 NoRawSpecial(t) == LET q == HtmlTokens(t) IN \A i \in DOMAIN q : q[i].k = "ch" => q[i].c \notin HtmlSpecials
 
@@ -208,7 +222,8 @@ SegmentsText(out, tag) == UnescapeSegs(SplitOn(out, tag), 1)
 (* the repository's tests pin space -> '+').                               *)
 (***************************************************************************)
 UnreservedStr == "ABCDEFGHIJKLMNOPQRSTUVWXYZabcdefghijklmnopqrstuvwxyz0123456789-_.~"
-IsUnreserved(c) == Len(c) = 1 /\ HasSub(UnreservedStr, c)
+UnreservedSet == CharsOf(UnreservedStr)
+IsUnreserved(c) == c \in UnreservedSet
 \* marks of RFC 2396 that RFC 3986 made sub-delims; harmless in every context
 \* except the apostrophe, which is an HTML special and is NOT allowed raw
 UriLenient == {"!", "*", "(", ")"}
@@ -291,8 +306,8 @@ JsTokensFrom(t, i) ==
         [] OTHER -> <<[k |-> "esc", c |-> e]>> \o JsTokensFrom(t, i + 2)
 JsTokens(t) == JsTokensFrom(t, 1)
 
-JsKnown(t) == \A i \in DOMAIN JsTokens(t) : JsTokens(t)[i].k # "unk"
-JsWellFormed(t) == \A i \in DOMAIN JsTokens(t) : JsTokens(t)[i].k # "bad"
+JsKnown(t) == LET q == JsTokens(t) IN \A i \in DOMAIN q : q[i].k # "unk"
+JsWellFormed(t) == LET q == JsTokens(t) IN \A i \in DOMAIN q : q[i].k # "bad"
 JsDenote(t) == CatTokChars(JsTokens(t), 1)
 
 \* safe between either kind of quotes inside a <script> element
